@@ -149,11 +149,11 @@ PROPS = {
     "C04": dict(
         rules=[R("vm", "rule_frames"), R("vm", "rule_catch_restore"), R("iters", "rule_iter_err"), R("values", "rule_replace_atomic"), R("compiler", "rule_try_exit"), R("vm", "rule_err_kind"), R("vm", "rule_err_swallow"),
                R("compiler", "rule_catch_last"), R("vm", "rule_unwind_no_result"), R("errdiscard", "rule_err_discard"),
-               R("trycount", "rule_try_count")],
+               R("trycount", "rule_try_count"), R("trycount", "rule_finally_catch")],
         clause="Every nested interpreter entry sets the execution barrier and pops its frame when the nested run fails "
                "(R-FRAMES); resuming at a catch handler restores the sequence/string builder stacks (R-CATCH-RESTORE); "
                "no iterator output that may carry an error is dropped on its way up through adaptors and consumers "
-               "(R-ITER-ERR). the multi-step replace-at-index of a map entry cannot be interrupted by an error exit (R-REPLACE-ATOMIC). break / continue emit TryEnd for the try blocks they leave, the only way a catch point is removed (R-TRY-EXIT). a thrown value travels as an Error, never as its rendering (R-ERR-KIND). a failed overloaded operator is never replaced by the fallback's outcome unless it threw koto.unimplemented (R-ERR-SWALLOW). a conditional last catch block rethrows what it does not accept (R-CATCH-LAST). a frame discarded by the unwinder delivers no result to the surviving frame, so `v = f()` leaves v as it was when f throws (R-UNWIND-NO-RESULT). the error of a re-entrant call is never reduced to its discriminant and replaced (R-ERR-DISCARD). the compiler's active-try-block count, from which break / continue emit TryEnd, mirrors the registered catch points at every recursive compile call (R-TRY-COUNT). Not decided: finally on every path, handler scoping across break/continue/return "
+               "(R-ITER-ERR). the multi-step replace-at-index of a map entry cannot be interrupted by an error exit (R-REPLACE-ATOMIC). break / continue emit TryEnd for the try blocks they leave, the only way a catch point is removed (R-TRY-EXIT). a thrown value travels as an Error, never as its rendering (R-ERR-KIND). a failed overloaded operator is never replaced by the fallback's outcome unless it threw koto.unimplemented (R-ERR-SWALLOW). a conditional last catch block rethrows what it does not accept (R-CATCH-LAST). a frame discarded by the unwinder delivers no result to the surviving frame, so `v = f()` leaves v as it was when f throws (R-UNWIND-NO-RESULT). the error of a re-entrant call is never reduced to its discriminant and replaced (R-ERR-DISCARD). the compiler's active-try-block count, from which break / continue emit TryEnd, mirrors the registered catch points at every recursive compile call (R-TRY-COUNT). code compiled between the catch entry and the finally block runs under a catch point, without which an error there skips `finally` (R-FINALLY-CATCH; a known finding on the pinned tree). Not decided: finally on every path, handler scoping across break/continue/return "
                "(emitted control flow), variable state after a catch beyond the result register of the abandoned call.",
         technique="MIR path rules (sibling protocol at nested entries, must-pass-through) + linear-value evidence rule; call-graph "
                   "reachability from the unwinder to register writes; def-use census of the Result locals of re-entrant calls; "
